@@ -329,7 +329,9 @@ class Gen:
             for it in rest:
                 if it.kind == "fn" and contracts.get(self.item_key(it, None)) is None:
                     self.unknown_fns.add(it.name)
-                elif it.kind == "impl" and it.body_open is not None:
+                elif it.kind == "impl" and it.body_open is not None and not re.search(r"\bfor\b", it.header):
+                    # inherent impls only: a method of a TRAIT impl inherits the trait method's contract, which
+                    # would then be assumed for an unverified body - that stays an unknown item (exit 2)
                     ck = contracts.get(self.item_key(it, None))
                     if ck is not None and ck.skip:
                         continue
@@ -598,6 +600,20 @@ class Gen:
                                       "reason": "new function without a contract (no side-car entry): left unverified, nothing assumed about it; its callers are externalised"})
             self.count("fallback_unknown_fn")
             return
+        if c is None and container is not None and container.kind == "impl" and it.body_open is not None:
+            # a method of a trait impl that overrides a default method of a crate-local trait whose method has a
+            # contract: no side-car entry is needed - Verus checks the body against the inherited trait contract
+            mt = re.match(r"\s*impl\s*(?:<[^>]*>)?\s*([\w:]+)(?:<[^{]*?>)?\s+for\s", container.header + " ")
+            if mt:
+                tkey = norm_key(f"trait {mt.group(1).split('::')[-1]} :: fn {it.name}")
+                for sc in self.sidecars.values():
+                    tc = sc.get(tkey)
+                    if tc is not None and not tc.skip:
+                        c = Contract(key, "inherited from " + tkey)
+                        c.props = list(tc.props)
+                        c.ret = tc.ret
+                        self.count("inherited_trait_contract")
+                        break
         if c is None:
             raise ExtractError(f"{relsrc}:{it.line}: function without side-car entry (unknown item): {key}")
         toks = it.toks
